@@ -115,6 +115,14 @@ DirCases == UNION {
         rk \in RefKinds, r \in RefBoxes, sz \in Sizes(k),
         d \in {"h", "H", "v", "V"}, g \in {-8, 0, 12}} : k \in SubjKinds}
 
+\* direction placement of an element whose size is adjusted by dw / dh: the adjusted size is
+\* what is centred on the shared axis and kept `gap` away
+DirDeltaCases ==
+    {[fam |-> "rel", form |-> "dirdelta", refkind |-> "rect", ref |-> r, kind |-> k, w |-> 8, h |-> 4, dw |-> dl[1], dh |-> dl[2],
+      dir |-> d, gap |-> g, exp |-> PlaceDir(r, d, g, 8 + dl[1], 4 + dl[2])] :
+        r \in RefBoxes, k \in {"rect", "ellipse"}, dl \in {<<8, 0>>, <<0, 8>>, <<-4, 12>>},
+        d \in {"h", "H", "v", "V"}, g \in {0, 12}}
+
 \* a <point> as reference: a degenerate box; it is also a legitimate "previous element"
 PointRefCases ==
     {[fam |-> "rel", form |-> "dir", refkind |-> "point", ref |-> B(p[1], p[2], p[1], p[2]), kind |-> "rect", w |-> 8, h |-> 4,
@@ -203,7 +211,7 @@ ChainCases ==
         r \in RefBoxes, d1 \in {"h", "H", "v", "V"}, d2 \in {"h", "H", "v", "V"}, g \in {0, 4}}
 
 RelCases == DirCases \cup LocCases \cup EdgeCases \cup ScalarCases \cup SizeCases \cup ChainCases \cup PointRefCases
-            \cup DeltaCases \cup ReusePosCases \cup LinePtCases
+            \cup DeltaCases \cup ReusePosCases \cup LinePtCases \cup DirDeltaCases
 
 \* identities of the layout reference, checked on every case
 RelIdentities ==
